@@ -208,7 +208,7 @@ def scale_runs(ctx, runs, script="c06_impl"):
 
 # ------------------------------------------------------------------ requirement recomputed from the shipped data
 
-REQ_COUNTRIES = ["WOR", "BOL", "PER", "IND", "MNG", "SAU", "EGY", "USA"]
+REQ_COUNTRIES = ["WOR", "BOL", "PER", "IND", "MNG", "SAU", "EGY", "USA", "SWT"]   # SWT = the model's code for Eswatini (data row SWZ)
 
 
 def data_requirements(code):
@@ -240,6 +240,52 @@ def data_requirements(code):
             lsu = float(attrs[t]["LSU"])
             out[t] = (float(v), lsu, factors[species], lsu * one_lsu * factors[species] * float(v), region)
     return out
+
+
+def mapping_regions():
+    """{iso3: FAO region} straight from FAO_country_region_mappings.csv"""
+    import csv
+    import os
+    import lib
+    d = os.path.join(lib.REPO, "data", "no_food_trade", "animal_feed_data")
+    out, amb = {}, {}
+    for r in csv.DictReader(open(os.path.join(d, "FAO_country_region_mappings.csv"))):
+        if r["alpha3"] in out:
+            if r["FAO-region-EK"] != out[r["alpha3"]]:
+                amb.setdefault(r["alpha3"], [out[r["alpha3"]]]).append(r["FAO-region-EK"] + " (" + r["country"] + ")")
+            continue          # the first row of an alpha3 code defines its region (territories share their parent's code)
+        out[r["alpha3"]] = r["FAO-region-EK"]
+    mapping_regions.ambiguous = amb
+    return out
+
+
+def region_scan(ctx):
+    """every model country code + WOR: the region main() hands to the LSU factor lookup is the one the mapping file gives
+    for that country (SWT is the data's SWZ); 'Other' only when the mapping file has no row for it"""
+    import csv
+    import os
+    import lib
+    p = os.path.join(lib.REPO, "data", "no_food_trade", "computer_readable_combined.csv")
+    codes = [r[0] for r in csv.reader(open(p))][1:] + ["WOR"]
+    regions = mapping_regions()
+    runs = [{"code": c, "scenario": "baseline", "feed": [0.0], "grass": [0.0], "kdict": KD0, "months": [], "shape": "region"} for c in codes]
+    res = ctx.run_impl("c07_audit", {"runs": runs})["results"]
+    nother = 0
+    for c, r in zip(codes, res):
+        rep = {"kind": "counterexample", "region_scan": c}
+        if "error" in r:
+            ctx.violation(f"C07:region-differs-from-mapping@set_livestock_unit_factors:{c}", f"main() raised {r['error']} for {c}", rep)
+            continue
+        want = regions.get("SWZ" if c == "SWT" else c, "Other")
+        nother += want == "Other"
+        ctx.count(("region", c), nontrivial=True)
+        if r.get("region") != want:
+            ctx.violation(f"C07:region-differs-from-mapping@set_livestock_unit_factors:{c}",
+                          f"{c}: main() looks up the regional LSU factors of region {r.get('region')!r} (CountryData built for "
+                          f"{r.get('country_name')!r}) but FAO_country_region_mappings.csv puts the country in {want!r}", rep)
+    ctx.notes["region_scan"] = {"codes": len(codes), "codes_without_row_in_mapping_file (Other in both)": nother,
+                                "model_codes_with_several_rows_of_different_regions_in_the_mapping_file (first row used)":
+                                    {k: v for k, v in mapping_regions.ambiguous.items() if k in codes}}
 
 
 def requirement_audit(ctx):
@@ -345,6 +391,7 @@ def run(ctx):
         ctx.broken.append(f"model does not compile: {bad}")
         return
     requirement_audit(ctx)
+    region_scan(ctx)
     rng = ctx.rng
     q = ctx.quick
     sp_cases = [gen_species_case(rng) for _ in range(1500 if q else 30000)]
@@ -555,6 +602,10 @@ def replay(rep):
         ks = [r["keys"][i] for i in r["order"]] if "err" not in r else []
         if "err" in r or any(ks[i] < ks[i + 1] for i in range(len(ks) - 1)):
             failed.append(("order", str(r)))
+    elif rep.get("region_scan"):
+        before = len(ctx.violations)
+        region_scan(ctx)
+        failed += [(v["key"], v["what"]) for v in ctx.violations[before:]]
     elif rep.get("requirement_audit"):
         before = len(ctx.violations)
         requirement_audit(ctx)
